@@ -12,6 +12,7 @@ RULE = ("grammar-generated task programs (profiles %s; trees and DAGs of tasks, 
         "and raising flushes, nested yield structures, errors, try/except, synchronous re-entry, contexts) interpreted on "
         "the real scheduler and replayed in the Lean machine with the implementation's flush choices; non-trivial = at "
         "least 2 tasks and 1 scheduler flush; distinct by hash of (configuration, programs)" % (", ".join(p for p, _ in MIX)))
+RULE += "; plus families prioflush (get_priority on class / instance / mock.patch.object, items answered before the flush, several rounds: flush order = greatest priority first) and crossthread, judged by direct expectation (Drv/Families6t.lean)"
 TRUSTED = cc.TRUSTED_CORE
 ASSUMPTIONS = cc.ASSUMPTIONS_CORE
 
@@ -20,7 +21,8 @@ def extra(tier, rng):
     return [cc.cancel_case(na, nb, h, we) for na in (1, 2, 3, 4) for nb in (1, 2, 3) for h in (0, 1) for we in (0, 1)] + \
         [{"special": "reflush", "n": n, "depth": d} for n in (1, 2, 3) for d in (1, 2, 3)] + \
         cc.corefam4.hookssurvive_cases(tier, cc.fork(rng, "hooks")) + cc.corefam4.eventhook_cases(tier, cc.fork(rng, "eventhook")) + \
-        cc.guard_cases(tier, cc.fork(rng, "guard"))
+        cc.guard_cases(tier, cc.fork(rng, "guard")) + \
+        cc.corefam6t.prioflush_cases(tier, cc.fork(rng, "prioflush")) + cc.corefam6t.crossthread_cases(tier, cc.fork(rng, "crossthread"))
 
 
 def plan(tier, seed):
